@@ -206,6 +206,7 @@ def build(ctx):
 
     part_root_only(ctx)
     part_from_target(ctx)
+    part_recursive(ctx)
 
 
 # ======================================================================================= target selection without -p / --all
@@ -295,6 +296,143 @@ def part_root_only(ctx):
     eng.stubs = []
     eng.lenient = False
     eng.inline_only = None
+
+
+# ======================================================================================= `--all`: which path dependencies are entered
+def part_recursive(ctx):
+    """get_targets_recursive over a harness `cargo metadata` result with k packages (1..2), each with one dependency whose `path` is present
+    or not (symbolic): every package's targets are added, and a dependency is entered (the function recurses with its manifest) exactly when
+    it has a path, was not visited before, its Cargo.toml exists and is not the manifest of one of the packages cargo listed - wherever the
+    directory lies.  The recursion itself is environment (Ok | Err)."""
+    from mirsym.intrinsics import str_expr, NONE
+    from mirsym.engine import StrSort
+    eng = ctx.engine(('cargo-fmt',), loop_bound=16)
+    name = eng.find('get_targets_recursive', free=True)
+    rp = replay_recursive
+    K = 1 if ctx.tier == 'quick' else 2
+    n_rec = 0
+    for k in range(1, K + 1):
+        eng.stubs = []
+        eng.lenient = True
+        eng.inline_only = [re.compile(r'^get_targets_recursive($|::)')]
+        st = State()
+        pk = [Opaque('cargo_metadata::Package', 'pkg%d' % i) for i in range(k)]
+        has_path = [z3.Bool('dep%d.has_path' % i) for i in range(k)]
+        visited = [z3.Bool('dep%d.already_visited' % i) for i in range(k)]
+        exists = [z3.Bool('dep%d.manifest_exists' % i) for i in range(k)]
+        member = [[z3.Bool('dep%d.manifest_is_that_of_package%d' % (i, j)) for j in range(k)] for i in range(k)]
+        deps = [Opaque('cargo_metadata::Dependency', 'dep%d' % i) for i in range(k)]
+
+        def idx_of(v, prefix):
+            m = re.search(prefix + r'(\d+)', str(getattr(v, 'ident', '')) + str(getattr(v, 'e', '')))
+            return int(m.group(1)) if m else None
+
+        def stable_path(e, s_, b, t):
+            return StrVal(e=z3.Const('path:' + re.sub(r'!\d+$', '', b), StrSort))
+        eng.type_models = [
+            (re.compile(r'^(std::vec::)?Vec<(cargo_metadata::)?Package>$'), lambda e, s_, b, t: Seq(pk)),
+            (re.compile(r'^(std::vec::)?Vec<cargo_metadata::Target>$'), lambda e, s_, b, t: Opaque('Vec<Target>', re.sub(r'!\d+$', '', b))),
+            (re.compile(r'^(std::vec::)?Vec<(cargo_metadata::)?Dependency>$'), lambda e, s_, b, t: Seq([deps[idx_of(Opaque('x', b), 'pkg')]])),
+            (re.compile(r'^(std::option::)?Option<([a-z_]+::)*Utf8PathBuf>$'),
+             lambda e, s_, b, t: Enum('Option', z3.If(has_path[idx_of(Opaque('x', b), 'dep')], z3.BitVecVal(1, 64), z3.BitVecVal(0, 64)), {1: Tup([StrVal(e=z3.Const('path:' + re.sub(r'!\d+$', '', b), StrSort))])})),
+            (re.compile(r'Utf8PathBuf$'), stable_path),
+        ]
+        meta = Opaque('cargo_metadata::Metadata', 'meta')
+        eng.stub(r'^get_cargo_metadata$', lambda e, s_, a, c: Enum('Result', 0, {0: Tup([meta])}), '`cargo metadata` = harness result: k packages with one dependency each')
+        eng.stub(r'^add_targets$', lambda e, s_, a, c: (s_.trace.append(('add_targets', idx_of(deref(e, s_, a[0]), 'pkg'))), UNIT)[1], 'add_targets(package.targets) observed')
+
+        def cur_dep(s_):
+            xs = [t[1] for t in s_.trace if t[0] == 'dep']
+            return xs[-1] if xs else None
+
+        def contains(e, s_, a, c):
+            nm = deref(e, s_, a[1])
+            i = idx_of(nm, 'dep')
+            s_.trace.append(('dep', i))
+            return visited[i]
+        eng.stub(r'BTreeSet::<(std::string::)?String>::contains::<', contains, 'visited.contains(dependency.name) = symbolic per dependency')
+        eng.stub(r'BTreeSet::<(std::string::)?String>::insert$', lambda e, s_, a, c: (s_.trace.append(('mark_visited', cur_dep(s_))), z3.BoolVal(True))[1], 'visited.insert observed')
+        eng.stub(r'^<PathBuf as From<&?(camino::)?Utf8PathBuf>>::from$|^<PathBuf as From<.*>>::from$', lambda e, s_, a, c: deref(e, s_, a[0]), 'PathBuf::from(path) = the same path value')
+        eng.stub(r'Path(Buf)?::join::<&str>$', lambda e, s_, a, c: Tup([deref(e, s_, a[0])], 'ManifestOf'), 'dir.join("Cargo.toml") = the manifest path of that directory')
+        eng.stub(r'(std::path::)?Path::exists$', lambda e, s_, a, c: exists[cur_dep(s_)], 'manifest_path.exists() = symbolic per dependency')
+
+        def man_eq(e, s_, a, c):
+            x, y = deref(e, s_, a[0]), deref(e, s_, a[1])
+            j = idx_of(x, 'pkg')
+            if j is None:
+                j = idx_of(y, 'pkg')
+            i = cur_dep(s_)
+            if i is None or j is None:
+                raise Unsupported('manifest comparison %r %r' % (x, y))
+            return member[i][j]
+        eng.stub(r'Utf8PathBuf as (std::cmp::)?PartialEq<.*>>::eq$', man_eq, 'package.manifest_path == manifest_path: symbolic per (dependency, package)')
+        eng.stub(r'<PathBuf as (std::ops::)?Deref>::deref$|PathBuf::as_path$', lambda e, s_, a, c: a[0], 'PathBuf deref')
+
+        def recurse(e, s_, a, c):
+            s2 = s_.fork()
+            s_.trace.append(('recurse', cur_dep(s_)))
+            s2.trace.append(('recurse', cur_dep(s2)))
+            return [(s_, 'ret', Enum('Result', 0, {0: Tup([UNIT])})), (s2, 'ret', Enum('Result', 1, {1: Tup([Opaque('io::Error', 'rec')])}))]
+        eng.stub(r'^get_targets_recursive$', recurse, 'the recursive call = Ok | Err, observed')
+        try:
+            outs = ctx.check_outcomes(eng.run(name, [NONE, eng.ref_to(st, Opaque('BTreeSet', 'targets'), True), eng.ref_to(st, Opaque('BTreeSet', 'visited'), True)], st), 'get_targets_recursive')
+        finally:
+            eng.type_models = []
+        mv = has_path + visited + exists + [m_ for row in member for m_ in row]
+        for pi, o in enumerate(outs):
+            tag = 'recursive/k=%d/p%d' % (k, pi)
+            if o.kind != 'ret':
+                ctx.prop(tag + '/no-panic', o.state.pc, z3.BoolVal(True), mv, rp, twin=False)
+                continue
+            if o.value.concrete() != 0:
+                continue
+            added = [t[1] for t in o.state.trace if t[0] == 'add_targets']
+            ctx.prop(tag + '/the-targets-of-every-listed-package-are-added', o.state.pc, z3.BoolVal(sorted(x for x in added if x is not None) != list(range(k))), mv, rp, twin=False)
+            rec = [t[1] for t in o.state.trace if t[0] == 'recurse']
+            n_rec += len(rec)
+            for i in range(k):
+                want = z3.And(has_path[i], z3.Not(visited[i]), exists[i], z3.Not(z3.Or(member[i])))
+                ctx.prop(tag + '/dependency%d-is-entered-iff-it-has-a-path-is-new-exists-and-is-not-a-listed-package' % i, o.state.pc, z3.BoolVal(i in rec) != want, mv, rp, twin=False)
+    eng.stubs = []
+    eng.lenient = False
+    eng.inline_only = None
+    if not n_rec:
+        raise Inconclusive('get_targets_recursive: no path with a recursive call explored')
+
+
+def replay_recursive(model, r):
+    """cargo fmt --all with a path dependency that lies inside the workspace root but is excluded from the workspace"""
+    bins = ensure_bins()
+    cf = os.path.join(bins, 'cargo-fmt')
+    d = os.path.join(BUILD, 'scratch', 'c18r-%d' % os.getpid())
+    shutil.rmtree(d, ignore_errors=True)
+    os.makedirs(os.path.join(d, 'src'))
+    os.makedirs(os.path.join(d, 'vendor', 'dep', 'src'))
+    os.makedirs(os.path.join(d, 'member', 'src'))
+    open(os.path.join(d, 'Cargo.toml'), 'w').write('[package]\nname = "root"\nversion = "0.1.0"\nedition = "2021"\n[dependencies]\ndep = { path = "vendor/dep" }\n[workspace]\nmembers = ["member"]\nexclude = ["vendor/dep"]\n')
+    open(os.path.join(d, 'src', 'lib.rs'), 'w').write('pub fn r() {}\n')
+    open(os.path.join(d, 'vendor', 'dep', 'Cargo.toml'), 'w').write('[package]\nname = "dep"\nversion = "0.1.0"\nedition = "2018"\n')
+    open(os.path.join(d, 'vendor', 'dep', 'src', 'lib.rs'), 'w').write('pub fn d() {}\n')
+    open(os.path.join(d, 'member', 'Cargo.toml'), 'w').write('[package]\nname = "member"\nversion = "0.1.0"\nedition = "2021"\n')
+    open(os.path.join(d, 'member', 'src', 'lib.rs'), 'w').write('pub fn m() {}\n')
+    logp = os.path.join(d, 'calls.log')
+    standin = os.path.join(d, 'standin.sh')
+    open(standin, 'w').write('#!/bin/bash\nprintf "%%s\\n" "$@" >> %s\nexit 0\n' % logp)
+    os.chmod(standin, 0o755)
+    env = run_env()
+    env['RUSTFMT'] = standin
+    env['CARGO_NET_OFFLINE'] = 'true'
+    pr = subprocess.run([cf, '--all'], capture_output=True, text=True, env=env, timeout=120, cwd=d)
+    calls = open(logp).read() if os.path.exists(logp) else ''
+    found = []
+    if pr.returncode != 0 and 'metadata' in pr.stderr:
+        shutil.rmtree(d, ignore_errors=True)
+        return {'reproduced': False, 'detail': ['cargo metadata not usable here: %s' % pr.stderr[:160]]}
+    for want in ('src/lib.rs', 'vendor/dep/src/lib.rs', 'member/src/lib.rs'):
+        if os.path.join(d, want) not in calls and want not in calls:
+            found.append('cargo fmt --all does not pass %s to rustfmt (exit %d)' % (want, pr.returncode))
+    shutil.rmtree(d, ignore_errors=True)
+    return {'reproduced': bool(found), 'detail': found}
 
 
 # ======================================================================================= the identity of a target is its canonical path
